@@ -34,14 +34,14 @@ def one(diff):
 
 
 bad = 0
-with ThreadPoolExecutor(6) as ex:
+with ThreadPoolExecutor(int(os.environ.get("JOBS", "6"))) as ex:
     for diff, res in ex.map(one, diffs):
         if res is None:
             print(f"{diff}: DOES NOT APPLY")
             continue
-        print(f"{diff}: {'silent' if not res else ''}")
+        print(f"{diff}: {'silent' if not res else ''}", flush=True)
         for p, (rc, lines) in res.items():
             bad += 1
-            print(f"   {p} rc={rc} {lines}")
+            print(f"   {p} rc={rc} {lines}", flush=True)
 print("patches:", len(diffs), "alarms:", bad)
 sys.exit(1 if bad else 0)
